@@ -155,7 +155,7 @@ func c01RunCase(c *c01Case, idx int, scratch string) (res c01Result) {
 	}
 	c01WriteProject(scratch, c.Files)
 	wpath := filepath.Join(scratch, c01PathWorkflow)
-	if c.Mode == "cli" {
+	if c.Mode == "cli" || c.Mode == "cli-stdin" {
 		return c01RunCLI(c, idx, scratch)
 	}
 	defer func() {
@@ -216,9 +216,16 @@ func c01RunCLI(c *c01Case, idx int, scratch string) (res c01Result) {
 		tool = filepath.Join(binDir(), "faketool")
 	}
 	// CPU limit through the shell so that a busy hang of the CLI is a CPU verdict, not a wall-clock one
-	script := fmt.Sprintf("ulimit -t %d; exec %q -no-color -shellcheck=%q -pyflakes=%q %q", c01SoloCPUBudget, bin, tool, tool, c01PathWorkflow)
+	target := c01PathWorkflow
+	if c.Mode == "cli-stdin" {
+		target = "-" // the workflow arrives on standard input
+	}
+	script := fmt.Sprintf("ulimit -t %d; exec %q -no-color -shellcheck=%q -pyflakes=%q %q", c01SoloCPUBudget, bin, tool, tool, target)
 	cmd := exec.Command("/bin/sh", "-c", script)
 	cmd.Dir = scratch
+	if c.Mode == "cli-stdin" {
+		cmd.Stdin = strings.NewReader(c.Files[c01PathWorkflow])
+	}
 	var so, se bytes.Buffer
 	cmd.Stdout, cmd.Stderr = &so, io.MultiWriter(&se, os.Stderr) // a goroutine dump of a killed CLI reaches the parent
 	err := cmd.Run()
